@@ -29,6 +29,7 @@ FIXMAP = [
  ("fix: error(msg, 2) reported", ("C05", "F-ERR2")),
  ("fix: channel:send ignored the context", ("C11", "F-CH1")),
  ("fix: debug.getlocal listed dead locals", ("C17", "F-DBG1")),
+ ("fix: break out of a block nested in a loop", ("C03", "F-BRK1")),
  ("fix: NumUsedRegisters did not cover", ("C07", "F-REG1")),
  ("fix: jumps longer than the sBx range", ("C07", "F-CMP2")),
  ("fix: bulk-move merging swallowed", ("C07", "F-MOVEN1")),
